@@ -9,13 +9,15 @@
  *       stream order, always on state pointer hash->s; block number j of this call, offset o, holds
  *       the stream byte at position p = 64 (B0/64 + j) + o, where stream(p) = old buf[p%64] for p < B0
  *       and data[p - B0] for p >= B0;
- *   (c) afterwards buf[t] = stream(64 (B1/64) + t) for every t < B1%64;
+ *   (c) afterwards buf[o] = stream(64 (B1/64) + o) for every o < B1%64;
  *   (d) hash->s is changed by compression calls only; len = 0 changes nothing;
- *   (e) no byte outside data[0..len) is read (data is an exact-size object; the oracle checks that the
- *       block range it is handed is readable).
+ *   (e) no byte outside data[0..len) is read (data is an exact-size object; the oracle and the memcpy
+ *       model check that the ranges they are handed are readable).
  * By induction over the writes: the sequence of blocks handed to the compression function, and the
  * final tail, depend only on the concatenated stream, not on how it was split (h_write2 checks the
- * two-write instance on the real code directly). */
+ * two-write instance on the real code directly).
+ * `o` (woff) is ONE ghost offset in [0,64) used both for the block offset of (b) and the tail offset
+ * of (c); the memcpy model watches exactly buf[o] (see hash_spec.h). */
 #define VERIF_MEMCPY_MODEL
 #include "hash_spec.h"
 #define memcpy verif_memcpy64
@@ -24,23 +26,24 @@
 #include "post.h"
 
 #ifndef MAXLEN
-#define MAXLEN ((size_t)1 << 48)
-#endif   /* objects are <= 2^52 bytes under --object-bits 12 (trusted base) */
+#define MAXLEN ((size_t)1 << 48)   /* objects are <= 2^52 bytes under --object-bits 12 (trusted base) */
+#endif
 
 void h_write(void) {
     INPUT(uint64_t, b0); INPUT(size_t, len); INPUT_ARR(unsigned char, buf0, 64);
     INPUT(uint32_t, s0a); INPUT(uint32_t, s0b); INPUT(unsigned, sk);
-    INPUT(uint64_t, wblk); INPUT(unsigned, woff); INPUT(unsigned, t);
+    INPUT(uint64_t, wblk); INPUT(unsigned, woff);
     secp256k1_sha256 h; secp256k1_hash_ctx hc; unsigned char *data;
     uint64_t b1, nb, p, q; unsigned i;
     __CPROVER_assume(len <= MAXLEN);
     __CPROVER_assume(b0 <= UINT64_MAX - len);            /* the function's precondition: the byte counter does not wrap */
-    __CPROVER_assume(woff < 64 && t < 64 && sk < 8);
+    __CPROVER_assume(woff < 64 && sk < 8);
     INPUT_BUF(dataw, data, len, 64);
     for (i = 0; i < 8; i++) h.s[i] = (i == sk) ? s0a : s0b;
     memcpy(h.buf, buf0, 64); h.bytes = b0;
     hc.fn_sha256_compression = verif_compress;
     COMPLOG_RESET(); g_cw_blk = wblk; g_cw_off = woff;
+    g_mc_base = (unsigned char *)&h; g_mc_doff = offsetof(secp256k1_sha256, buf) + woff; g_mc_calls = 0;
 
     secp256k1_sha256_write(&hc, &h, data, len);
 
@@ -57,50 +60,62 @@ void h_write(void) {
     } else {
         __CPROVER_assert(g_cw_hit == 0, "C05 sha256_write (b): no block beyond the complete ones is delivered");
     }
-    if (t < b1 % 64) {
-        q = (b1 / 64) * 64 + t;
-        if (q < b0) __CPROVER_assert(h.buf[t] == buf0[t], "C05 sha256_write (c): old tail bytes stay in place when no block completes");
-        else __CPROVER_assert(h.buf[t] == data[q - b0], "C05 sha256_write (c): new tail buf[t] is the stream byte at 64(B1/64)+t");
+    if (woff < b1 % 64) {
+        q = (b1 / 64) * 64 + woff;
+        if (q < b0) __CPROVER_assert(h.buf[woff] == buf0[woff], "C05 sha256_write (c): old tail bytes stay in place when no block completes");
+        else __CPROVER_assert(h.buf[woff] == data[q - b0], "C05 sha256_write (c): new tail buf[o] is the stream byte at 64(B1/64)+o");
     }
     __CPROVER_assert(h.s[sk] == (g_c_calls ? g_c_out[sk] : s0a), "C05 sha256_write (d): state words are changed by the compression function only");
-    if (len == 0) __CPROVER_assert(h.buf[t] == buf0[t] && g_c_calls == 0, "C05 sha256_write (d): an empty write changes nothing");
+    if (len == 0) __CPROVER_assert(h.buf[woff] == buf0[woff] && g_c_calls == 0 && g_mc_calls == 0, "C05 sha256_write (d): an empty write changes nothing");
 
     if (g_c_calls == 2 && wblk == 0 && woff >= b0 % 64) REACH("write: tail completed and bulk call, watched byte from data in block 0");
     if (g_c_calls == 2 && wblk == 5000 && len > 400000) REACH("write: long input, watched block 5000");
-    if (g_c_calls == 0 && len > 0 && t < b1 % 64 && t >= b0 % 64) REACH("write: buffered only");
+    if (g_c_calls == 0 && len > 0 && woff < b1 % 64 && woff >= b0 % 64) REACH("write: buffered only");
     if (g_c_calls == 1 && b0 % 64 == 0 && b1 % 64 == 0 && len > 64) REACH("write: aligned bulk");
+    if (g_mc_calls == 2) REACH("write: two copies into the buffer");
     REACH("write end");
 }
 
-/* Two-write lemma on the real code: write(a); write(b) hands the compression function the same
- * blocks (same count, same bytes at every block number/offset) and leaves the same tail and counter
- * as write(a||b).  a||b is one buffer d[0..la+lb) split at la. */
+/* Two-write lemma on the real code: write(a); write(b), with a||b = d[0..la+lb) split at la, satisfies
+ * the SAME stream postcondition (a),(b),(c) as the single call write(a||b) in h_write - block numbers
+ * run on over both calls.  (a)-(c) determine the byte count, the number of blocks, every byte of
+ * every delivered block and the tail uniquely, so both ways of writing deliver identical blocks. */
 void h_write2(void) {
     INPUT(uint64_t, b0); INPUT(size_t, la); INPUT(size_t, lb); INPUT_ARR(unsigned char, tl0, 64);
-    INPUT(uint64_t, wblk); INPUT(unsigned, woff); INPUT(unsigned, t);
-    secp256k1_sha256 h1, h2; secp256k1_hash_ctx hc; unsigned char *d;
-    uint64_t blocks1; int hit1; unsigned char byte1;
+    INPUT(uint64_t, wblk); INPUT(unsigned, woff);
+    secp256k1_sha256 h; secp256k1_hash_ctx hc; unsigned char *d;
+    uint64_t b2, nb, p, q;
     __CPROVER_assume(la <= MAXLEN && lb <= MAXLEN);
     __CPROVER_assume(b0 <= UINT64_MAX - la - lb);
-    __CPROVER_assume(woff < 64 && t < 64);
+    __CPROVER_assume(woff < 64);
     INPUT_BUF(dw, d, la + lb, 64);
-    memcpy(h1.buf, tl0, 64); h1.bytes = b0; h2 = h1;
+    memcpy(h.buf, tl0, 64); h.bytes = b0;
     hc.fn_sha256_compression = verif_compress;
-
     COMPLOG_RESET(); g_cw_blk = wblk; g_cw_off = woff;
-    secp256k1_sha256_write(&hc, &h1, d, la);
-    secp256k1_sha256_write(&hc, &h1, d + la, lb);
-    blocks1 = g_c_blocks; hit1 = g_cw_hit; byte1 = g_cw_byte;
+    g_mc_base = (unsigned char *)&h; g_mc_doff = offsetof(secp256k1_sha256, buf) + woff; g_mc_calls = 0;
 
-    COMPLOG_RESET(); g_cw_blk = wblk; g_cw_off = woff;
-    secp256k1_sha256_write(&hc, &h2, d, la + lb);
+    secp256k1_sha256_write(&hc, &h, d, la);
+    secp256k1_sha256_write(&hc, &h, d + la, lb);
 
-    __CPROVER_assert(h1.bytes == h2.bytes, "C05 sha256_write split lemma: same byte count");
-    __CPROVER_assert(blocks1 == g_c_blocks, "C05 sha256_write split lemma: same number of blocks compressed");
-    __CPROVER_assert(hit1 == g_cw_hit && hit1 <= 1, "C05 sha256_write split lemma: the same block numbers are delivered, each once");
-    if (hit1) __CPROVER_assert(byte1 == g_cw_byte, "C05 sha256_write split lemma: every delivered block has the same content");
-    if (t < h2.bytes % 64) __CPROVER_assert(h1.buf[t] == h2.buf[t], "C05 sha256_write split lemma: same buffered tail");
-    if (hit1 && la % 64 != 0 && lb > 200 && wblk == 1) REACH("write2: unaligned split, block 1 delivered");
+    b2 = b0 + la + lb; nb = b2 / 64 - b0 / 64;
+    __CPROVER_assert(h.bytes == b2, "C05 sha256_write split lemma (a): byte count as for one write of a||b");
+    __CPROVER_assert(g_c_blocks == nb, "C05 sha256_write split lemma (b): number of blocks as for one write of a||b");
+    if (wblk < nb) {
+        p = (b0 / 64 + wblk) * 64 + woff;
+        __CPROVER_assert(g_cw_hit == 1, "C05 sha256_write split lemma (b): every complete block of the stream is delivered exactly once");
+        if (p < b0) __CPROVER_assert(g_cw_byte == tl0[woff], "C05 sha256_write split lemma (b): old tail bytes delivered at their offset");
+        else __CPROVER_assert(g_cw_byte == d[p - b0], "C05 sha256_write split lemma (b): delivered blocks are those of the stream tail||a||b");
+    } else {
+        __CPROVER_assert(g_cw_hit == 0, "C05 sha256_write split lemma (b): no further block is delivered");
+    }
+    if (woff < b2 % 64) {
+        q = (b2 / 64) * 64 + woff;
+        if (q < b0) __CPROVER_assert(h.buf[woff] == tl0[woff], "C05 sha256_write split lemma (c): old tail stays when no block completes");
+        else __CPROVER_assert(h.buf[woff] == d[q - b0], "C05 sha256_write split lemma (c): tail as for one write of a||b");
+    }
+    if (g_cw_hit && la % 64 != 0 && lb > 200 && wblk == 1) REACH("write2: unaligned split, block 1 delivered");
+    if (g_cw_hit && g_cw_call == 3 && wblk > 70) REACH("write2: four compression calls, watched block in the last");
     if (la == 0 && lb > 64) REACH("write2: empty first write");
+    if (la > 0 && la < 10 && lb > 0 && lb < 10 && b0 % 64 == 60 && woff < 5 && g_c_calls == 1) REACH("write2: block completed by the second write, tail from b");
     REACH("write2 end");
 }
